@@ -197,3 +197,46 @@ package tmconsensus
 
 //@ iface HashScheme.VotePowers(hs, pows)
 //@   ensures result1 == nil ==> bytes(result0) == HPows(hs, pows)
+
+// ---- C09: the shipped feedback mappers are total over every result the engine can return ----
+
+//@ define validPHResult(f) = f >= HandleProposedHeaderAccepted && f <= HandleProposedHeaderInternalError
+//@ define validVoteResult(f) = f >= HandleVoteProofsAccepted && f <= HandleVoteProofsInternalError
+//@ define validFeedback(r) = r == gexchange.FeedbackAccepted || r == gexchange.FeedbackRejected || r == gexchange.FeedbackIgnored
+
+//@ iface FineGrainedConsensusHandler.HandleProposedHeader(h, ctx, ph)
+//@   ensures validPHResult(result)
+//@ iface FineGrainedConsensusHandler.HandlePrevoteProofs(h, ctx, p)
+//@   ensures validVoteResult(result)
+//@ iface FineGrainedConsensusHandler.HandlePrecommitProofs(h, ctx, p)
+//@   ensures validVoteResult(result)
+
+//@ func AcceptAllValidFeedbackMapper.HandleProposedHeader
+//@   property C09
+//@   ensures defined-feedback: validFeedback(result)
+//@ func AcceptAllValidFeedbackMapper.mapVoteResult
+//@   property C09
+//@   requires validVoteResult(f)
+//@   ensures defined-feedback: validFeedback(result)
+//@   ensures accepted-only-for-valid-votes: result == gexchange.FeedbackAccepted ==>
+//@       f == HandleVoteProofsAccepted || f == HandleVoteProofsNoNewSignatures || f == HandleVoteProofsFutureVerified
+//@ func AcceptAllValidFeedbackMapper.HandlePrevoteProofs
+//@   property C09
+//@   ensures defined-feedback: validFeedback(result)
+//@ func AcceptAllValidFeedbackMapper.HandlePrecommitProofs
+//@   property C09
+//@   ensures defined-feedback: validFeedback(result)
+//@ func DropDuplicateFeedbackMapper.HandleProposedHeader
+//@   property C09
+//@   ensures defined-feedback: validFeedback(result)
+//@ func DropDuplicateFeedbackMapper.mapVoteResult
+//@   property C09
+//@   requires validVoteResult(f)
+//@   ensures defined-feedback: validFeedback(result)
+//@   ensures accepted-only-for-new-valid-votes: result == gexchange.FeedbackAccepted ==> f == HandleVoteProofsAccepted || f == HandleVoteProofsFutureVerified
+//@ func DropDuplicateFeedbackMapper.HandlePrevoteProofs
+//@   property C09
+//@   ensures defined-feedback: validFeedback(result)
+//@ func DropDuplicateFeedbackMapper.HandlePrecommitProofs
+//@   property C09
+//@   ensures defined-feedback: validFeedback(result)
